@@ -16,6 +16,7 @@ MT19937 is a deterministic function of its seed; thread-level nondeterminism is 
 namespace Ska.C06
 open Ska.Rng
 
+/-- helper: without a global site the whole run (cursors and drawn values) does not look at the global stream -/
 theorem run_glob_irrelevant (ownS argS g g' : Stream) (p : List Src) (h : NoGlobal p = true) :
     ∀ c : Cur, (run ownS argS g p c) = (run ownS argS g' p c) := by
   induction p with
@@ -30,6 +31,7 @@ theorem run_glob_irrelevant (ownS argS g g' : Stream) (p : List Src) (h : NoGlob
     rw [hs]
     exact ih h.2 _
 
+/-- helper: without a global site the global generator is not advanced -/
 theorem run_glob_cursor (ownS argS g : Stream) (p : List Src) (h : NoGlobal p = true) :
     ∀ c : Cur, (run ownS argS g p c).glob = c.glob := by
   induction p with
